@@ -189,6 +189,10 @@ class Prop(PropBase):
         'read_mode/write_mode locals, encoding=/mode= arguments, counters read only by logging, '
         '.mkdir(parents=True, exist_ok=True) on the out directory; names are bound by role '
         '(parameter position, what a with binds), fail-closed outside that subset',
+        'every other os.* / shutil.* call the implementation makes on a path inside the scratch '
+        'directory (chmod, copymode, utime, link, rename, truncate, ...) is discovered at run time by a '
+        'Python audit hook and is a snapshot boundary and fault point as well (tag sys:<event>); the op '
+        'model has no such primitive, so one appearing is a correspondence break by itself',
         'fault injection wraps open / NamedTemporaryFile / handle.write / handle.close / os.replace / '
         'os.remove inside pypyr.utils.filesystem; handle.writelines is replaced by the equivalent '
         'loop over write (what _io._IOBase.writelines does); a failing injected primitive has no effect',
@@ -340,9 +344,10 @@ class Prop(PropBase):
             cleanup_failed = any(h[1].startswith('remove') for h in raised)
             if extras and not cleanup_failed:
                 if raised:
+                    t0 = raised[0][1]
                     cls = {'write': 'write-error', 'close-w': 'close-error',
-                           'close-src': 'close-src-error'}.get(raised[0][1]) \
-                        or raised[0][1].split(':')[0] + '-error'
+                           'close-src': 'close-src-error'}.get(t0) \
+                        or (t0[4:] if t0.startswith('sys:') else t0.split(':')[0]) + '-error'
                 else:
                     cls = {'format': 'format-error', 'load': 'load-error'}.get(obs['outcome'][1], 'error')
                 add('raise-leaves-no-temp',
